@@ -69,6 +69,22 @@ def inspect_program(tpl) -> tuple:
     return problems, len(owner), len(close), len(subs)
 
 
+class DoesNotTerminate(Exception):
+    pass
+
+
+class StepBudget(dict):
+    """The interpreter's opcode dispatch table, counting dispatches: a deterministic
+    guard against expansions that never end (generated cases need < 10^5 steps)."""
+    left = 2_000_000
+
+    def __getitem__(self, op):
+        self.left -= 1
+        if self.left < 0:
+            raise DoesNotTerminate("more than 2,000,000 interpreter steps")
+        return dict.__getitem__(self, op)
+
+
 class Monitors:
     """Wraps compileHTMLTemplate (structural) and TemplateInterpreter.execute (dynamic)."""
 
@@ -90,6 +106,8 @@ class Monitors:
 
         def execute(interp, template):
             ctx = interp.context
+            if not isinstance(interp.commandHandler, StepBudget):
+                interp.commandHandler = StepBudget(interp.commandHandler)
             before = (len(ctx.localStack), len(ctx.repeatStack))
             orig_execute(interp, template)
             chk.count("executes_monitored")
